@@ -195,3 +195,90 @@ def crc_query(qid, params, ctx):
     except NonLinear as e:
         return {"status": ERROR, "detail": "outside encodable class (non-linear): %s" % e}
     return {"status": HOLDS, "stats": agg, "validated_traces": val, "solver_time_s": time.time() - t0, "witness_ok": agg["paths"] > 0}
+
+
+HUGE_C = r'''
+#include <stdio.h>
+#include <stdlib.h>
+#include <stdint.h>
+#include <sys/mman.h>
+uint64_t FUNC();
+int main(int argc, char **argv) {
+    uint64_t n = strtoull(argv[1], 0, 0), seed = 0x1234;
+    unsigned char *p = mmap(0, n + 4096, PROT_READ | PROT_WRITE, MAP_PRIVATE | MAP_ANONYMOUS | MAP_NORESERVE, -1, 0);
+    if (p == MAP_FAILED) { printf("MMAPFAIL\n"); return 3; }
+    p[n - 1] = 0x5a; p[n / 2] = 0x17;
+    uint64_t a = n / 3, b = n / 3, c = n - a - b;   /* three pieces, each < 2^32 */
+    uint64_t one = CALL(seed, p, n) & MASK;
+    uint64_t r = CALL(seed, p, a) & MASK; r = CALL(r, p + a, b) & MASK; r = CALL(r, p + a + b, c) & MASK;
+    printf("ONESHOT %lx PIECES %lx\n", one, r);
+    return one == r ? 0 : 1;
+}
+'''
+
+
+def crc_huge_probe(qid, params, ctx):
+    """64-bit length truncation probe (cf. C20): with len = 2^32 + L a correct kernel cannot return within the
+    instruction budget (it must read 4 GiB); returning early means bytes of the message were never read, so the
+    result cannot be the CRC of the message.  Read bytes are materialised lazily as zero."""
+    import os
+    import subprocess
+    kname = params["kernel"]
+    routine, conv = KERNELS[kname]
+    w = crc_py.ROUTINES[routine][0]
+    t0 = time.time()
+    stats = {"variables": 0, "clauses": 0, "paths": 0}
+    try:
+        img = loader.build_image(ctx["repo"], ["crc/%s.asm" % kname], ctx["scratch"])
+        for L in params["lows"]:
+            n = (1 << 32) + L
+            s = Setup(img, kname)
+            buf = s.region("buf", n, r=True, w=False, init=None, offset=params.get("off", 0))
+            if conv == "copy":
+                dst = s.region("dst", n, r=True, w=True, init=None, offset=1 << 34)   # clear of the 4 GiB source region
+                s.args = [0x1234, dst, buf, n]
+            elif conv == "iscsi":
+                s.args = [buf, n, 0x1234]
+            else:
+                s.args = [0x1234, buf, n]
+            st0 = s.initial_state()
+            nread = [0]
+
+            def lazy(addr):
+                nread[0] += 1
+                return 0
+            st0.mem.find(buf, 1).lazy = lazy
+            st0.mem.soft = []
+            st0.mem.outside_fn = lambda a: 0
+            ex = Exec(img, max_steps=params.get("budget", 30000))
+            finals = ex.run(st0)
+            stats["paths"] += len(finals)
+            stats["variables"] += ex.n_insns
+            for st, out in finals:
+                if isinstance(out, Violation):
+                    if out.kind == "no-termination":
+                        continue
+                    return {"status": VIOLATED, "detail": "%s (len=2^32+%d): %s at %r" % (kname, L, out, out.insn), "cex": {"len": n}, "replay_ok": None, "stats": stats}
+                # returned within the budget: bytes unread
+                d = ctx["scratch"] + "/x86"
+                src, exe = os.path.join(d, "hugecrc_%s.c" % kname), os.path.join(d, "hugecrc_%s" % kname)
+                call = {"std": "FUNC(s, p, n)", "iscsi": "FUNC(p, n, s)", "copy": "FUNC(s, p, p, n)"}[conv]
+                code = HUGE_C.replace("CALL(seed, p, n)", call.replace("FUNC", kname).replace("s,", "seed,").replace(", s)", ", seed)"))
+                code = code.replace("CALL(seed, p, a)", call.replace("FUNC", kname).replace("s,", "seed,").replace(", s)", ", seed)").replace(" n", " a"))
+                code = code.replace("CALL(r, p + a, b)", call.replace("FUNC", kname).replace("s,", "r,").replace(", s)", ", r)").replace("p,", "p + a,").replace(" n", " b"))
+                code = code.replace("CALL(r, p + a + b, c)", call.replace("FUNC", kname).replace("s,", "r,").replace(", s)", ", r)").replace("p,", "p + a + b,").replace(" n", " c"))
+                code = code.replace("FUNC()", kname + "()").replace("MASK", hex((1 << w) - 1) + "ull")
+                open(src, "w").write(code)
+                rep, rlog = None, "native replay not built"
+                if conv != "copy" and subprocess.run(["gcc", "-O1", "-w", src] + list(img.objs) + ["-o", exe], stdout=subprocess.PIPE, stderr=subprocess.PIPE).returncode == 0:
+                    try:
+                        p = subprocess.run([exe, str(n)], stdout=subprocess.PIPE, stderr=subprocess.PIPE, timeout=600)
+                        rlog = "native: " + p.stdout.decode().strip()
+                        rep = True if p.returncode == 1 else (False if p.returncode == 0 else None)
+                    except subprocess.TimeoutExpired:
+                        rlog = "native replay timed out"
+                return {"status": VIOLATED, "detail": "%s returned for len=2^32+%d after reading only %d bytes (64-bit length truncated) | %s" % (kname, L, nread[0], rlog),
+                        "cex": {"kernel": kname, "len": n, "bytes_read": nread[0]}, "replay_ok": rep, "replay_log": rlog, "stats": stats}
+    except Unsupported as e:
+        return {"status": ERROR, "detail": "outside encodable class: %s" % e}
+    return {"status": HOLDS, "stats": stats, "solver_time_s": time.time() - t0, "witness_ok": stats["paths"] > 0}
